@@ -250,23 +250,25 @@ def optional_codec(ctx, c) -> Optional[str]:
         return None
     name, fn = acc
     env = {"self": ClassRef(c.qualname)}
+    # the accessor is evaluated for both discriminant values (whatever the chain is written as)
+    PAYLOAD = G.Sym("payload")
+    cenv = {}
+    for k_ in repo.mro(c):
+        for an, (ann_, val_) in k_.attrs.items():
+            if val_ is not None and f"self.{an}" not in cenv:
+                v_ = ev.try_eval(val_, k_.module)
+                if isinstance(v_, int):
+                    cenv[f"self.{an}"] = v_
     dec = {}
-
-    def walk(stmts, conds):
-        for st in stmts:
-            if isinstance(st, ast.If):
-                t = st.test
-                if isinstance(t, ast.Compare) and len(t.ops) == 1 and isinstance(t.ops[0], ast.Eq) and A.is_self_attr(t.left, dfield[0]):
-                    v = ev.try_eval(t.comparators[0], c.module, env)
-                    for s2 in st.body:
-                        if isinstance(s2, ast.Return):
-                            dec[v] = s2.value
-                    walk(st.orelse, conds)
-    walk(fn.body, [])
-    a_ok = dfield[1] in dec and isinstance(dec[dfield[1]], ast.Constant) and dec[dfield[1]].value is None
-    b_ok = dfield[2] in dec and A.is_self_attr(dec[dfield[2]], vfield[0])
+    for dv in (dfield[1], dfield[2]):
+        try:
+            dec[dv] = G.returned_value(fn, dict(cenv, **{f"self.{dfield[0]}": dv, f"self.{vfield[0]}": PAYLOAD}))
+        except Unknown as ex_:
+            dec[dv] = f"<not evaluable: {ex_}>"
+    a_ok = dec.get(dfield[1], 0) is None
+    b_ok = dec.get(dfield[2]) is PAYLOAD
     ctx.check("C15.H", f"{c.name}.{name}:mirror-of-constructor", a_ok and b_ok,
-              f"{c.name}.{name} does not mirror the constructor: discriminant {dfield[1]} must give None and {dfield[2]} must give self.{vfield[0]}; got {{{', '.join(str(k) + ': ' + src(v) for k, v in dec.items())}}}", c.loc(fn))
+              f"{c.name}.{name} does not mirror the constructor: discriminant {dfield[1]} must give None and {dfield[2]} must give self.{vfield[0]}; got {dec}", c.loc(fn))
     is_prop = c.is_property(name)
     return name if is_prop else name + "()"
 
@@ -310,6 +312,7 @@ def check_variable(ctx, classes):
         segs = []
         bad = False
         for t in terms:
+            t = A.expand(t, defs)  # a term may be a local holding bytes(...)
             if not (isinstance(t, ast.Call) and dotted(t.func) == "bytes" and len(t.args) == 1):
                 bad = True
                 break
@@ -324,7 +327,8 @@ def check_variable(ctx, classes):
         ctx.check("C15.V", f"{c.name}:writer:type-byte-first", ok, f"{c.name}.__bytes__ does not start with the type byte MESSAGE_TYPE(self.type)", c.loc(wb))
         # ---- reader: track offset of raw
         rawp = A.param_names(rd)[1]
-        off = 0
+        # views of the input: a name bound to <view>[k:] starts k bytes further (re-binding the parameter itself or a new name)
+        views = {rawp: 0}
         reads = []  # (offset, type value, var name)
         varmap = {}
         unknown = False
@@ -333,26 +337,27 @@ def check_variable(ctx, classes):
                 continue
             if isinstance(st, ast.Assign) and len(st.targets) == 1 and isinstance(st.targets[0], ast.Name):
                 tname, v = st.targets[0].id, st.value
-                if tname == rawp and isinstance(v, ast.Subscript) and isinstance(v.value, ast.Name) and v.value.id == rawp and isinstance(v.slice, ast.Slice) and v.slice.upper is None and v.slice.step is None:
-                    k = _eval_len(ctx, m, v.slice.lower)
+                if isinstance(v, ast.Subscript) and isinstance(v.value, ast.Name) and v.value.id in views and isinstance(v.slice, ast.Slice) and v.slice.upper is None and v.slice.step is None:
+                    k = _eval_len(ctx, m, v.slice.lower) if v.slice.lower is not None else 0
                     if k is None:
                         unknown = True
                         break
-                    off += k
+                    views[tname] = views[v.value.id] + k
                     continue
-                if isinstance(v, ast.Call) and isinstance(v.func, ast.Attribute) and v.func.attr == "from_buffer_copy" and len(v.args) == 1 and A.norm(v.args[0]) == rawp:
+                if isinstance(v, ast.Call) and isinstance(v.func, ast.Attribute) and v.func.attr == "from_buffer_copy" and len(v.args) == 1 and A.norm(v.args[0]) in views:
                     t = ev.try_eval(v.func.value, m, varmap)
-                    reads.append((off, t, tname, v.func.value))
+                    reads.append((views[A.norm(v.args[0])], t, tname, v.func.value))
                     varmap[tname] = ("read", len(reads) - 1)
                     continue
                 for x in ast.walk(v):
-                    if isinstance(x, ast.Call) and isinstance(x.func, ast.Attribute) and x.func.attr == "from_buffer_copy" and len(x.args) == 1 and A.norm(x.args[0]) == rawp:
-                        reads.append((off, None, None, x.func.value))
+                    if isinstance(x, ast.Call) and isinstance(x.func, ast.Attribute) and x.func.attr == "from_buffer_copy" and len(x.args) == 1 and A.norm(x.args[0]) in views:
+                        reads.append((views[A.norm(x.args[0])], None, None, x.func.value))
                 varmap[tname] = ("expr", v)
                 continue
             if isinstance(st, ast.Return):
                 continue
             unknown = True
+        off = views[rawp]
         if unknown:
             ctx.error("C15.V", f"{c.name}.deserialize_from: statement form outside the enumerated idioms")
             continue
